@@ -25,8 +25,9 @@
 //
 // Violations: the worker process dies (signature: step's service and variant,
 // token mode, top in-repo function of the panic); the canary is not answered
-// (hang). Pruning: an operation that kills or hangs the server as a history of
-// length 1 is reported once and not used to extend histories.
+// (hang). Pruning: an operation that kills, hangs or stalls the server as a history
+// of length 1 is reported once and not used to extend histories; a history is
+// only extended if its last step changed the canonical server state (see state()).
 package main
 
 import (
@@ -571,8 +572,9 @@ func dispatcherWhere() string {
 // state is the canonical server state used for the reduction "a step that leaves
 // the state unchanged cannot enable anything": subscriptions (id, owner,
 // parameters, queued publish requests), monitored items (rank, subscription,
-// mode), session tokens, number of channels, attributes and value of the two
-// nodes the alphabet can write to.
+// mode), session tokens, attributes and value of the two nodes the alphabet can
+// write to. (The set of open channels is left out on purpose: a connection the
+// server dropped only matters to the client that lost it.)
 func (w *c29World) state() string {
 	var b strings.Builder
 	ss := w.srv.SubscriptionService
@@ -605,7 +607,7 @@ func (w *c29World) state() string {
 	}
 	nn, nsb := len(ms.Nodes), len(ms.Subs)
 	ms.Mu.Unlock()
-	fmt.Fprintf(&b, "subs=%v items=%v bynode=%d bysub=%d sessions=%v channels=%d", subs, items, nn, nsb, w.srv.VerifSessionTokens(), w.srv.VerifChannelCount())
+	fmt.Fprintf(&b, "subs=%v items=%v bynode=%d bysub=%d sessions=%v", subs, items, nn, nsb, w.srv.VerifSessionTokens())
 	for _, nid := range []*ua.NodeID{w.target, w.folder} {
 		n := w.ns.Node(nid)
 		if n == nil {
@@ -859,6 +861,9 @@ func c29() {
 	if thorough {
 		budget = 10 * time.Minute
 	}
+	if b := envInt("VERIF_C29_BUDGET", 0); b > 0 {
+		budget = time.Duration(b) * time.Second
+	}
 	start := time.Now()
 	timeUp := func() bool { return time.Since(start) > budget }
 
@@ -893,7 +898,10 @@ func c29() {
 	var histories, deaths, hangs int64
 	outcomes := map[string]int{}
 
+	// extendable[i]: history i survived, the server was quiescent afterwards, and its last step changed the state
+	var extendable []bool
 	runLevel := func(level int, hist [][]c29Step) (skipped int) {
+		extendable = make([]bool, len(hist))
 		jobs := make([][]byte, len(hist))
 		for i, h := range hist {
 			jobID++
@@ -971,7 +979,13 @@ func c29() {
 				r.Outcome("survived, server busy beyond the watchdog (abandoned)")
 				r.NotJudged(1)
 				busy[desc] = rep.Busy
+				if level == 1 {
+					bad[c29Op{h[0].V, h[0].Tok}] = true // keeps the server busy beyond the watchdog on its own: not used to extend
+				}
 				continue
+			}
+			if n := len(rep.Neutral); n == len(h) && !rep.Neutral[n-1] {
+				extendable[i] = true
 			}
 			r.Outcome("survived")
 			if histories%997 == 1 {
@@ -987,9 +1001,7 @@ func c29() {
 		l1 = append(l1, []c29Step{{V: o.V, Tok: o.Tok, Conn: 0}})
 	}
 	levelOne = true
-	if sk := runLevel(1, l1); sk > 0 {
-		r.Capped(fmt.Sprintf("time budget reached in level 1: %d of %d single-step histories not run", sk, len(l1)))
-	}
+	runLevel(1, l1)
 	levelOne = false
 	var good []c29Op
 	for _, o := range ops {
@@ -998,36 +1010,33 @@ func c29() {
 		}
 	}
 	r.Set("operations", len(ops))
-	r.Set("operations_killing_or_hanging_alone", len(ops)-len(good))
+	r.Set("operations_killing_hanging_or_stalling_alone", len(ops)-len(good))
 	complete := 1
-	// level 2 (and 3): only operations that survive on their own extend histories
+	// longer histories: only operations that survive on their own are appended, and only to histories whose
+	// last step changed the canonical server state (otherwise h+o behaves like h without its last step + o,
+	// which is a shorter history that was already run)
 	maxLen := 2
 	if thorough {
 		maxLen = 3
 	}
-	prev := [][]c29Step{}
-	for _, o := range good {
-		prev = append(prev, []c29Step{{V: o.V, Tok: o.Tok, Conn: 0}})
+	pos := map[c29Op]int{}
+	for i, o := range good {
+		pos[o] = i
 	}
-	if timeUp() && maxLen >= 2 {
-		r.Capped("time budget reached after level 1: no history of length 2 was run; all histories of length 1 were run")
-	}
-	for l := 2; l <= maxLen && !timeUp(); l++ {
-		// simplest first: order by the sum of the positions in the (already sorted) operation list
+	prev := l1
+	var reduced int64
+	for l := 2; l <= maxLen; l++ {
 		type cand struct {
 			h    []c29Step
 			cost int
 		}
-		pos := map[c29Op]int{}
-		for i, o := range good {
-			pos[o] = i
-		}
 		var cands []cand
-		limit := 400000
-		if l == 3 {
-			limit = 1500000
-		}
-		for _, h := range prev {
+		nExt := 0
+		for i, h := range prev {
+			if !extendable[i] {
+				continue
+			}
+			nExt++
 			base := 0
 			for _, s := range h {
 				base += pos[c29Op{s.V, s.Tok}]
@@ -1038,24 +1047,28 @@ func c29() {
 					cands = append(cands, cand{nh, base + pos[o]})
 				}
 			}
-			if len(cands) > limit {
-				break
-			}
 		}
+		reduced += int64(len(prev)-nExt) * int64(len(good)) * 2
+		r.Set(fmt.Sprintf("length_%d_prefixes_extended", l-1), nExt)
+		// simplest first: order by the sum of the positions in the (already sorted) operation list
 		sort.SliceStable(cands, func(i, j int) bool { return cands[i].cost < cands[j].cost })
-		total := len(prev) * len(good) * 2
 		hist := make([][]c29Step, len(cands))
 		for i, c := range cands {
 			hist[i] = c.h
 		}
+		if timeUp() {
+			r.Capped(fmt.Sprintf("time budget reached before length %d: none of its %d histories was run; all histories of length <= %d were run (modulo the state-neutral reduction)", l, len(hist), complete))
+			break
+		}
 		sk := runLevel(l, hist)
-		if sk > 0 || len(cands) < total {
-			r.Capped(fmt.Sprintf("length-%d histories: %d of %d run (simplest first) before the time budget; all histories of length <= %d were run", l, len(hist)-sk, total, complete))
+		if sk > 0 {
+			r.Capped(fmt.Sprintf("length-%d histories: %d of %d run (simplest first) before the time budget; all histories of length <= %d were run (modulo the state-neutral reduction)", l, len(hist)-sk, len(hist), complete))
 			break
 		}
 		complete = l
 		prev = hist
 	}
+	r.Set("histories_covered_by_state_neutral_reduction", reduced)
 	r.AddStates(histories, histories)
 	r.Set("variants", len(variants))
 	r.Set("token_modes", toks)
@@ -1077,7 +1090,8 @@ func c29() {
 	}
 	r.Set("worker_processes_started", p.Started)
 	r.Rule(fmt.Sprintf("histories over %d operations = %d request variants (every registered request type: filled registry instance, raw registry instance, per-service small-domain variants) x token modes %v, steps on one of two client connections (first step on connection 0); all histories of length 1, then length 2 (thorough: 3) built only from operations that survive alone, simplest first until the time budget; evaluations = histories executed on a real server; non-trivial = every history (each is a distinct request sequence); distinct = the history", len(ops), len(variants), toks))
-	r.Assume("a history that kills the server alone is reported once and not extended (its extensions would die the same way)", "every connection starts with an activated session owning one subscription (1 h interval) and one monitored item, so own/foreign ids exist from the first step", "the server is reused between histories after deleting all subscriptions and items and re-creating the two nodes histories can tamper with; it is replaced every 1500 histories and after every death or hang")
+	r.Assume("a history that kills the server alone is reported once and not extended (its extensions would die the same way)",
+		"state-neutral reduction: a history whose last step left the canonical server state (subscriptions with parameters and queued publishes, monitored items, session tokens, attributes and value of the writable nodes) unchanged is not extended, because h+o then behaves like (h without its last step)+o, a shorter history that was run; state outside that canonical state (sequence numbers, nonces, the monotone item counter) is assumed not to influence crashes or hangs", "every connection starts with an activated session owning one subscription (1 h interval) and one monitored item, so own/foreign ids exist from the first step", "the server is reused between histories after deleting all subscriptions and items and re-creating the two nodes histories can tamper with; it is replaced every 1500 histories and after every death or hang")
 	r.Finish()
 }
 
